@@ -74,3 +74,22 @@ def sign_hash_request(key_id, h, version=5):
         return {"command": "sign", "version": 1, "keyId": key_id, "message": h.hex()}
     return {"command": "sign", "version": version, "keyId": key_id,
             "message": {"hash": h.hex()}}
+
+
+def reorder_members(rng, obj, how=None):
+    """the same JSON value with the members of every object in another order (reversed,
+    sorted by name, shuffled): objects are unordered, a request says the same whatever the
+    order its members are written in"""
+    how = how or rng.choice(["reversed", "sorted", "shuffled", "shuffled"])
+    if isinstance(obj, dict):
+        keys = list(obj)
+        if how == "reversed":
+            keys.reverse()
+        elif how == "sorted":
+            keys.sort()
+        else:
+            rng.shuffle(keys)
+        return {k: reorder_members(rng, obj[k], how) for k in keys}
+    if isinstance(obj, list):
+        return [reorder_members(rng, x, how) for x in obj]
+    return obj
